@@ -28,6 +28,8 @@ EXPLANATION = (
 EXPLANATION_ADDED = (" (R2 also accepts a merge method of RegionVisual whose value is the stored keywords updated with the caller's last; R2c is decided by evaluating define_mpl_kwargs on a visual dictionary holding every valid key.)"
                      " (R2d) define_mpl_kwargs, partially evaluated on every subset of the colour/fill keys in both default styles, never hands a Patch the keyword `color`, which matplotlib lets win over a caller's edgecolor=/facecolor=; (R4) nothing on the as_artist/plot path writes through the region, the origin or the caller's keywords (C13.R1 on that path).")
 EXPLANATION += EXPLANATION_ADDED
+EXPLANATION_ADDED3 = (" (R2c also) a fill flag stored in the visual dictionary reaches a Line2D as a fill-style name matplotlib accepts ('full'/'none'), never as the raw boolean.")
+EXPLANATION += EXPLANATION_ADDED3
 TRUSTED = ['matplotlib Circle(xy, radius), Ellipse(xy, width, height, angle[deg]), Rectangle(xy, width, height, angle[deg] about xy), '
            'Polygon(xy n×2), Line2D(xs, ys), Arrow(x, y, dx, dy), Text(x, y, text), Path(vertices, codes)',
            'a path with an oppositely oriented inner outline renders a hole']
